@@ -131,7 +131,7 @@ class Velocities(ProductSystem):
                 tags.append("last_frame")
             else:
                 partner = {a: b for a, b in mp.items() if b is not None}
-            dt = s.frames[other].time - fr.time
+            dt = times[other] - times[t]        # the stamps handed to the frames (not what the library has stored by now)
             for vid, vv in fr.vertices.items():
                 got, ex = fsutil.call(ts.calculate_velocity, vid, t)
                 if ex is not None:
